@@ -15,7 +15,7 @@ LEVEL_TEXT = {
  'C11': "Fault injection at the expression-evaluation seam: (a) an expression of the definition replaced by one that fails on the delivered data, (b) expr_base.evaluate wrapped to raise the evaluator's exception at the k-th evaluation; containment, recording, failing, no-offer clauses.",
  'C12': "Per task-execution item ledger (offered / in flight / done) checked at every offer and item completion under reordered item reports, polls, pause/cancel, restarts.",
  'C13': "Per-visit attempt ledger: bound, condition (harness evaluator), delay, no-transition-on-retry (no context delta, nothing staged, workflow not failed), last attempt decides.",
- 'C15': "Every conductor API call of every simulated run on inspection-accepted generated definitions runs under an exception monitor and a per-call alarm; only the documented rejections may leave a call. The completeness-of-inspection half of the property is input generation and is not claimed.",
+ 'C15': "Every conductor API call of every simulated run on inspection-accepted generated definitions runs under an exception monitor and a per-call alarm; only the documented rejections may leave a call. The completeness-of-inspection half is input generation: it is only sampled by an admission step (one injected definition fault of the five enumerated classes per sampled definition; inspection must report it) and is claimed at that strength.",
  'C17': "Runs are driven to failed/succeeded by each cause, then rerun requests (default, explicit, reset_items, inadmissible) are issued; offers after the request are matched against rerun entitlements; a twin whose re-executed actions succeed the first time gives the expected final status/output.",
  'C18': "Consecutive persisted states are diffed after every API call: sequence/contexts/routes are prefixes; started records keep id/route/ctxs.in/prev; decided records keep status/next/ctxs.out.",
  'C19': "Each seed is executed in fresh interpreters under different PYTHONHASHSEED values; digest chains over graph, inspection, offers, persisted state, errors and output are compared; get_next_tasks() is called twice at every dispatch point and must be idempotent.",
